@@ -23,7 +23,7 @@ RULE = ("a probe model M is observed (argument names and values, state map, RHS 
         "process-global caches are recorded; non-trivial = history contains >= 1 compile of a model related to M; distinct = "
         "distinct (M, history) hash")
 DECIDING = ['observations_compared', 'earlier_functions_rechecked', 'hist_steps', 'hist_compiles', 'hist_no_clear_compiles',
-            'hist_exceptions', 'hist_same_opname', 'hist_same_objects', 'shared_subcircuit_cases', 'hist_shared_update_var', 'input_history_cases', 'revectorize_cases', 'fortran_file_name_cases']
+            'hist_exceptions', 'hist_same_opname', 'hist_same_objects', 'shared_subcircuit_cases', 'hist_shared_update_var', 'input_history_cases', 'revectorize_cases', 'fortran_file_name_cases', 'yaml_reload_cases']
 ASSUMPTIONS = ['the probe model is observed through fresh template objects built from its spec (the state carry-over of a '
                'template object is documented statefulness, DESIGN 4a)']
 CASE_TIMEOUT = 300
@@ -48,6 +48,9 @@ def plan(tier, seed):
     cases += [{'family': 'revectorize', 'cseed': rnd.randrange(1 << 30)} for _ in range(24 if tier == 'quick' else 500)]
     # Fortran backend: models compiled one after the other under the same output file name
     cases += [{'family': 'fortran_file_name', 'cseed': rnd.randrange(1 << 30)} for _ in range(10 if tier == 'quick' else 150)]
+    # a circuit loaded from YAML, modified, and the same path loaded again
+    fam = 'probe:from_yaml_cached_circuit_modified' if 'from_yaml_cached_circuit_modified' in opened else 'yaml_reload'
+    cases += [{'family': fam, 'cseed': rnd.randrange(1 << 30)} for _ in range(8 if tier == 'quick' else 100)]
     return cases
 
 
@@ -551,7 +554,64 @@ def run_fortran_case(case, ctx):
     return res
 
 
+def run_yaml_reload_case(case, ctx):
+    """A YAML-defined circuit is loaded, the loaded circuit is modified (update_var / in-place edge addition) and possibly
+    simulated; the SAME path is then loaded again: the second circuit must be the model the file defines."""
+    import mpmath
+    from pyrates import CircuitTemplate
+    mpmath.mp.dps = 40
+    rnd = random.Random(case['cseed'])
+    mech = {}
+    for attempt in range(200):
+        M = gen.gen_net(rnd, pool=gen.SAFE_POOL, n_nodes=rnd.choice([1, 2, 3]), max_types=2, depth=0, forbid=ctx['excluded'],
+                        edge_density=0.4, same_type_bias=True)[0]
+        ref = RefModel(M)
+        consts = [k for k in ref.param_keys if ref.kind[k] == 'const']
+        if consts:
+            break
+    how = rnd.choice(['update_var', 'update_var', 'update_var_and_run'])
+    res = {'features': ['yaml_reload', how], 'risk': ['from_yaml_cached_circuit_modified'],
+           'sig': stable_hash([M, how]), 'nontrivial': True}
+    cwd = os.getcwd()
+    try:
+        text, top = build.build_yaml_text(M)
+        with open('reload_model.yaml', 'w') as f:
+            f.write(text)
+        path = f'{cwd}/reload_model/{top}'
+        try:
+            c1 = CircuitTemplate.from_yaml(path)
+            k0 = rnd.choice(consts)
+            c1.update_var(node_vars={'/'.join(k0): 9.125})
+            if how == 'update_var_and_run':
+                sk = list(ref.state_keys)[:2]
+                c1.run(simulation_time=3e-3, step_size=1e-3, outputs={f'o{i}': '/'.join(k) for i, k in enumerate(sk)}, vectorize=False,
+                       verbose=False, clear=True, in_place=False, float_precision='float64')
+            mech['hist_steps'] = 2
+            c2 = CircuitTemplate.from_yaml(path)
+        except Exception as e:
+            import traceback
+            raise observe.Mismatch(f"loud: from_yaml / update_var raised {type(e).__name__}: {e} :: {traceback.format_exc()[-300:]}")
+        try:
+            obs = observe.compile_vf(M, vectorize=False, template=c2)
+        except Exception as e:
+            raise observe.Mismatch(f"loud: get_run_func of the re-loaded circuit raised {type(e).__name__}: {e}")
+        try:
+            observe.compare_vf(obs, ref, rnd, mpmath, n_points=3, vectorized=False, mech=mech, perturb=False)
+        except observe.Mismatch as e:
+            raise observe.Mismatch(f"circuit loaded from a path after an earlier circuit loaded from the same path was modified with update_var "
+                                   f"({'/'.join(k0)} = 9.125): {e}")
+        mech['observations_compared'] = 1
+        mech['yaml_reload_cases'] = 1
+        res.update(status='ok', symptom='', mech=mech, sample={'how': how})
+    except observe.Mismatch as e:
+        s2 = str(e)
+        res.update(status='violation', symptom=('silent: ' if 'loud' not in s2 else '') + s2, mech=mech, spec={'M': M})
+    return res
+
+
 def run_case(case, ctx):
+    if case.get('family') in ('yaml_reload', 'probe:from_yaml_cached_circuit_modified'):
+        return run_yaml_reload_case(case, ctx)
     if case.get('family') == 'fortran_file_name':
         return run_fortran_case(case, ctx)
     if case.get('family') == 'revectorize':
